@@ -1,8 +1,11 @@
 import Bw.Props.C05
 #print axioms Bw.Props.C05.cfg_wf_generated
 #print axioms Bw.Props.C05.start_roundtrip
+#print axioms Bw.Props.C05.start_sound
+#print axioms Bw.Props.C05.start_iff
 #print axioms Bw.Props.C05.last_duplicate_wins
 #print axioms Bw.Props.C05.end_ws
+#print axioms Bw.Props.C05.end_iff
 #print axioms Bw.Props.C05.lookalike_glued
 #print axioms Bw.Props.C05.lookalike_cut
 #print axioms Bw.Props.C05.lookalike_prefix
@@ -10,4 +13,5 @@ import Bw.Props.C05
 #print axioms Bw.Props.C05.open_squote_no_value
 #print axioms Bw.Props.C05.lookalike_open_quote
 #print axioms Bw.Props.C05.scan_skips_noise
+#print axioms Bw.Props.C05.scan_skips_nontags
 #print axioms Bw.Props.C05.scan_finds_start
